@@ -45,21 +45,21 @@ Definition no_find (r : unit) (s : str) : option (list (option (N * N))) := None
 
 Definition default_fuel : nat := 300.
 
-Definition graph_of {E} (r : outcome E sstate) : outcome E graph :=
-  match r with Ok s => Ok (s_graph s) | Err e => Err e | Panic p => Panic p | OutOfFuel => OutOfFuel end.
+Definition graph_of {E} (r : outcome E (sstate * polls)) : outcome E graph :=
+  match r with Ok (s, _) => Ok (s_graph s) | Err e => Err e | Panic p => Panic p | OutOfFuel => OutOfFuel end.
 
 Definition c01_verdict (t : tree) (fl : file) (supplied : globals) (matches : list (list qmatch)) (x : expect) : N :=
   compare_outcome (graph_of (run_strict t fl config0 supplied None [] no_find mini_call default_fuel matches [])) x.
 Definition c01_detail (t : tree) (fl : file) (supplied : globals) (matches : list (list qmatch)) :=
   match run_strict t fl config0 supplied None [] no_find mini_call default_fuel matches [] with
-  | Ok s => Ok (canon_graph (s_graph s)) | Err e => Err e | Panic p => Panic p | OutOfFuel => OutOfFuel end.
+  | Ok (s, _) => Ok (canon_graph (s_graph s)) | Err e => Err e | Panic p => Panic p | OutOfFuel => OutOfFuel end.
 
 (* ---- lazy runs ---- *)
 From TSG Require Export Model.Lazy.
-Definition lgraph_of {E} (r : outcome E lstate) : outcome E graph :=
-  match r with Ok s => Ok (l_graph s) | Err e => Err e | Panic p => Panic p | OutOfFuel => OutOfFuel end.
+Definition lgraph_of {E} (r : outcome E (lstate * polls)) : outcome E graph :=
+  match r with Ok (s, _) => Ok (l_graph s) | Err e => Err e | Panic p => Panic p | OutOfFuel => OutOfFuel end.
 Definition lazy_verdict (t : tree) (fl : file) (supplied : globals) (matches : list (N * qmatch)) (x : expect) : N :=
   compare_outcome (lgraph_of (run_lazy t fl config0 supplied None [] no_find mini_call default_fuel matches [])) x.
 Definition lazy_detail (t : tree) (fl : file) (supplied : globals) (matches : list (N * qmatch)) :=
   match run_lazy t fl config0 supplied None [] no_find mini_call default_fuel matches [] with
-  | Ok s => Ok (canon_graph (l_graph s)) | Err e => Err e | Panic p => Panic p | OutOfFuel => OutOfFuel end.
+  | Ok (s, _) => Ok (canon_graph (l_graph s)) | Err e => Err e | Panic p => Panic p | OutOfFuel => OutOfFuel end.
